@@ -25,10 +25,14 @@ ASSUMPTIONS = [
 ]
 
 
+QUICK_BUDGET = {"cases": 640, "deadline_s": 90, "case_timeout_s": 60, "floors": {"lib_status_rows": 2000, "cli_status_rows": 100, "cli_submissions": 20}}
+THOROUGH_FACTOR = 40  # thorough = the same workload with 40x the cases (floors scale along)
+
+
 def budget(tier):
-    if tier == "thorough":
-        return {"cases": 6000, "deadline_s": 600, "case_timeout_s": 120, "floors": {"lib_status_rows": 20000, "cli_status_rows": 1500, "cli_submissions": 300}}
-    return {"cases": 640, "deadline_s": 90, "case_timeout_s": 60, "floors": {"lib_status_rows": 2000, "cli_status_rows": 100, "cli_submissions": 20}}
+    from ..core import scaled_budget
+
+    return scaled_budget(QUICK_BUDGET, tier, THOROUGH_FACTOR, noscale=())
 
 
 def gen_case(rng, idx, tier):
